@@ -583,6 +583,18 @@ func (h *hioRun) op(n *ioNode) {
 		}
 		want := h.pickBits(L)
 		off := h.pickOff(L)
+		if _, isSection := n.r.(*bitio.SectionReader); isSection && t.Intn(12) == 0 {
+			// a sub-range must not hand out what lies in front of it: a negative offset
+			// (fq reaches this with offsets computed from corrupt input) yields no bits
+			neg := -1 - int64(t.Intn(200))
+			p := make([]byte, want/8+2)
+			cnt, err := r.ReadBitsAt(p, want, neg)
+			h.log = append(h.log, fmt.Sprintf("%s.ReadBitsAt(%d,%d)=%d,%v", n.kind, want, neg, cnt, err))
+			if cnt != 0 {
+				h.violate("bits-before-start", n.kind, "ReadBitsAt(%d bits at %d) on %s returned %d bits from in front of the sub-range (err %v)", want, neg, n.desc, cnt, err)
+			}
+			return
+		}
 		if off%8 != 0 {
 			simrt.Probe(probeUnalignedAt)
 		}
